@@ -349,11 +349,23 @@ Definition facade_respond (c : cfg) (s : srv) (proceed : bool) (data : list Z) (
 
 Definition facade_reset (s : srv) : srv := srv_reset (subscribe s CB_LISTEN).
 
+(* ------------------------------------------------------------------ the node's own query in progress *)
+(* MemoryAccess.read / write: the facade is WAIT_QUERY while its own Dm14Query runs (the query itself is modelled in
+   Dm14Cli.v; here only what the SERVING side does with the messages that arrive meanwhile), IDLE again afterwards
+   (try/finally).  read raises when the facade is not idle, write then silently does nothing. *)
+Definition X_RUNNING : Z := 6.
+Definition facade_query (c : cfg) (s : srv) (is_read : bool) (during : list (Z * Z * list Z)) : srv * list sout * rret :=
+  if a_state s =? D_IDLE then
+    let '(s2, o2) := deliver_all c (set_astate s D_WAIT_QUERY) during in
+    (set_astate s2 D_IDLE, o2, if is_read then RetData [] else RetNone)
+  else (s, [], if is_read then RetRaise X_RUNNING else RetNone).
+
 (* ------------------------------------------------------------------ operations (the correspondence alphabet) *)
 Inductive sop :=
 | OpMsg (pgn sa : Z) (data : list Z)
 | OpRespond (proceed : bool) (data : list Z) (error edcp : Z) (during : list (Z * Z * list Z))
-| OpReset.
+| OpReset
+| OpQuery (is_read : bool) (during : list (Z * Z * list Z)).
 
 Definition sstep (c : cfg) (s : srv) (o : sop) : srv * list sout * rret :=
   match o with
@@ -361,4 +373,5 @@ Definition sstep (c : cfg) (s : srv) (o : sop) : srv * list sout * rret :=
                          (s1, o1, match e1 with Some x => RetRaise x | None => RetNone end)
   | OpRespond p d er ed du => facade_respond c s p d er ed du
   | OpReset => (facade_reset s, [], RetNone)
+  | OpQuery r du => facade_query c s r du
   end.
